@@ -60,6 +60,20 @@ fn export_u(a: &[u64]) -> Verdict {
     if x.iter_u32_digits().len() != d32.len() || x.iter_u64_digits().len() != d64.len() {
         return Err("iterator len() disagrees with the digit count".into());
     }
+    // num_traits::ToBytes / FromBytes are separate trait impls over the same encodings
+    {
+        use num_traits::{FromBytes, ToBytes};
+        let got = must_return("ToBytes::to_le_bytes", || ToBytes::to_le_bytes(&x))?;
+        if got != le {
+            return Err(format!("<BigUint as ToBytes>::to_le_bytes: got {:02x?} want {:02x?}", got, le));
+        }
+        let got = must_return("ToBytes::to_be_bytes", || ToBytes::to_be_bytes(&x))?;
+        if got != be {
+            return Err(format!("<BigUint as ToBytes>::to_be_bytes: got {:02x?} want {:02x?}", got, be));
+        }
+        ctx(must_return("FromBytes::from_le_bytes", || <BigUint as FromBytes>::from_le_bytes(&le)).and_then(|v| eq_bu(&v, &n)), "<BigUint as FromBytes>::from_le_bytes")?;
+        ctx(must_return("FromBytes::from_be_bytes", || <BigUint as FromBytes>::from_be_bytes(&be)).and_then(|v| eq_bu(&v, &n)), "<BigUint as FromBytes>::from_be_bytes")?;
+    }
     // round trips
     ctx(eq_bu(&BigUint::from_bytes_le(&le), &n), "from_bytes_le(to_bytes_le)")?;
     ctx(eq_bu(&BigUint::from_bytes_be(&be), &n), "from_bytes_be(to_bytes_be)")?;
@@ -98,6 +112,20 @@ fn export_i(neg: bool, a: &[u64]) -> Verdict {
     let got = must_return("to_signed_bytes_be", || x.to_signed_bytes_be())?;
     if got != sbe {
         return Err(format!("to_signed_bytes_be: got {:02x?} want {:02x?}", got, sbe));
+    }
+    {
+        // the trait forms for BigInt use the signed (two's-complement) encodings
+        use num_traits::{FromBytes, ToBytes};
+        let got = must_return("ToBytes::to_le_bytes", || ToBytes::to_le_bytes(&x))?;
+        if got != sle {
+            return Err(format!("<BigInt as ToBytes>::to_le_bytes: got {:02x?} want {:02x?}", got, sle));
+        }
+        let got = must_return("ToBytes::to_be_bytes", || ToBytes::to_be_bytes(&x))?;
+        if got != sbe {
+            return Err(format!("<BigInt as ToBytes>::to_be_bytes: got {:02x?} want {:02x?}", got, sbe));
+        }
+        ctx(must_return("FromBytes::from_le_bytes", || <BigInt as FromBytes>::from_le_bytes(&sle)).and_then(|v| eq_bi(&v, &r)), "<BigInt as FromBytes>::from_le_bytes")?;
+        ctx(must_return("FromBytes::from_be_bytes", || <BigInt as FromBytes>::from_be_bytes(&sbe)).and_then(|v| eq_bi(&v, &r)), "<BigInt as FromBytes>::from_be_bytes")?;
     }
     ctx(eq_bi(&BigInt::from_signed_bytes_le(&sle), &r), "from_signed_bytes_le(to_signed_bytes_le)")?;
     ctx(eq_bi(&BigInt::from_signed_bytes_be(&sbe), &r), "from_signed_bytes_be(to_signed_bytes_be)")?;
